@@ -13,7 +13,7 @@ variables of the packages this property's code lives in, the functions (other th
 assign to them or call methods on them, and the fields of the property's struct types. The model is
 a pure function of the arguments and of these fields; a new variable, writer or field is state the
 model does not know of. -/
-def stateC08 : List (String × String) := [("globals:mathx", "nan smallFact"), ("globalwrites:mathx", "")]
+def stateC08 : List (String × String) := [("globals:mathx", "nan smallFact"), ("globalwrites:mathx", ""), ("funcs:mathx", "n=13 fnv64a=721c592b642cc9ba")]
 
 /-- the source has exactly the package-level variables, writers and struct fields the model accounts for -/
 theorem state_C08 : holdsAll stateC08 = true := by decide +kernel
